@@ -22,7 +22,16 @@ struct ModContent {
     extern_value: bool,
     /// backend blocks in source order: 0 rust prologue, 1 rust epilogue, 2 rust {both}, 3 cpp prologue
     backends: Vec<usize>,
+    /// > 0: that many further items of every kind, with names that are prefixes of each other or differ
+    /// only in case, a digit or an underscore
+    crowd: usize,
 }
+
+const CROWD_TYPES: &[&str] = &["Item", "Item2", "Item10", "item", "ITEM", "Item_", "I", "It", "ItemX", "Plain2", "Plainer", "NodeVftableX"];
+const CROWD_VFT: &[&str] = &["Node", "Node2", "node", "Node10"];
+const CROWD_ENUMS: &[&str] = &["Kind", "Kind2", "kind", "K", "Kind10"];
+const CROWD_VALUES: &[&str] = &["g", "g2", "G", "g_", "counter2", "g10"];
+const CROWD_EXTERN: &[&str] = &["Ext2", "ext", "Ext10"];
 
 #[derive(Clone, Debug)]
 struct Case {
@@ -56,6 +65,29 @@ fn content_text(path: &str, c: &ModContent) -> String {
     }
     if c.extern_value {
         s.push_str("#[address(0x1000)]\npub extern counter: u32;\n");
+    }
+    if c.crowd > 0 {
+        // interleaved, so that no kind is declared in one run
+        for i in 0..c.crowd {
+            if let Some(n) = CROWD_EXTERN.get(i) {
+                s.push_str(&format!("#[size(4), align(4)]\nextern type {n};\n"));
+            }
+            if let Some(n) = CROWD_TYPES.get(i) {
+                s.push_str(&format!("pub type {n} {{\n    pub x: u32,\n}}\n"));
+            }
+            if let Some(n) = CROWD_VALUES.get(i) {
+                s.push_str(&format!("#[address({:#x})]\npub extern {n}: u32;\n", 0x2000 + 8 * i));
+            }
+            if let Some(n) = CROWD_VFT.get(i) {
+                s.push_str(&format!("pub type {n} {{\n    vftable {{\n        pub fn v(&self);\n    }},\n    pub y: u32,\n    pub z: u32,\n}}\n"));
+            }
+            if let Some(n) = CROWD_ENUMS.get(i) {
+                s.push_str(&format!("pub enum {n}: u8 {{\n    Red,\n    Green,\n}}\n"));
+            }
+            if let Some(n) = CROWD_TYPES.get(i) {
+                s.push_str(&format!("impl {n} {{\n    #[address({:#x})]\n    pub fn f{i}(&self);\n}}\n", 0x4000 + 16 * i));
+            }
+        }
     }
     s
 }
@@ -133,8 +165,25 @@ fn cases(tier: &str) -> Vec<Case> {
                             extern_type: items & 8 != 0,
                             extern_value: items & 16 != 0,
                             backends: seq.clone(),
+                            crowd: 0,
                         },
                     );
+                    out.push(Case { mods, collision: None });
+                }
+            }
+        }
+    }
+    // crowded modules: many items of every kind with similar names, alone and next to other modules
+    for shape in 1u32..(1 << PATHS.len()) {
+        let members: Vec<&str> = PATHS.iter().enumerate().filter(|(i, _)| shape >> i & 1 == 1).map(|(_, p)| *p).collect();
+        for vary in &members {
+            for crowd in [2usize, 5, 12] {
+                for seq in [vec![], vec![0, 1]] {
+                    let mut mods = BTreeMap::new();
+                    for m in &members {
+                        mods.insert(m.to_string(), simple.clone());
+                    }
+                    mods.insert(vary.to_string(), ModContent { plain_type: true, vft_type: true, enum_: true, extern_type: true, extern_value: true, backends: seq, crowd });
                     out.push(Case { mods, collision: None });
                 }
             }
@@ -221,6 +270,21 @@ fn judge(c: &Case, files: &BTreeMap<String, String>) -> Option<(String, String)>
         if content.extern_value {
             want.push(("fn".into(), "get_counter".into()));
         }
+        for i in 0..content.crowd {
+            if let Some(n) = CROWD_TYPES.get(i) {
+                want.push(("struct".into(), n.to_string()));
+            }
+            if let Some(n) = CROWD_VFT.get(i) {
+                want.push(("struct".into(), n.to_string()));
+                want.push(("struct".into(), format!("{n}Vftable")));
+            }
+            if let Some(n) = CROWD_ENUMS.get(i) {
+                want.push(("enum".into(), n.to_string()));
+            }
+            if let Some(n) = CROWD_VALUES.get(i) {
+                want.push(("fn".into(), format!("get_{n}")));
+            }
+        }
         let mut got: Vec<(String, String)> = fi
             .order
             .iter()
@@ -266,7 +330,7 @@ fn judge(c: &Case, files: &BTreeMap<String, String>) -> Option<(String, String)>
 pub fn run(tier: &str, only: Option<&Value>) -> i32 {
     let mut rep = Report::new("C14", tier);
     let all = cases(tier);
-    rep.rule = "E1 over input directories through pyxis::build: every non-empty subset of the module paths {a, n/c, n/d/e, n} (n both a file and a directory); in each, one module at a time ranges over every subset of item kinds {plain type, type with vftable, enum, extern type, extern value} and every sequence of <= 2 (3 thorough) backend blocks over {rust prologue, rust epilogue, rust {both}, cpp prologue}, including modules with no items; plus the collision menu (must be rejected). Oracle: directory listing and syn item multiset / order. distinct = distinct (shape, varied module, item subset, backend sequence)".into();
+    rep.rule = "E1 over input directories through pyxis::build: every non-empty subset of the module paths {a, n/c, n/d/e, n} (n both a file and a directory); in each, one module at a time ranges over every subset of item kinds {plain type, type with vftable, enum, extern type, extern value} and every sequence of <= 2 (3 thorough) backend blocks over {rust prologue, rust epilogue, rust {both}, cpp prologue}, including modules with no items; crowded modules (2 / 5 / 12 further items of every kind, names that are prefixes of each other or differ in case, a digit or an underscore, with an impl block each) in every shape; plus the collision menu (must be rejected). Oracle: directory listing and syn item multiset / order. distinct = distinct (shape, varied module, item subset, backend sequence)".into();
     let only_i = only.map(|l| (l["index"].as_u64().unwrap_or(0) as usize, l["ps"].as_u64().unwrap_or(8) as usize));
     let root = util::scratch_root().join("c14");
     for ps in [4usize, 8] {
